@@ -15,7 +15,7 @@ def pull(ctx, inst, mod, ids, prefix):
                 inst.fail("%s:%s" % (prefix, f["key"]), f["fn"], f["span"], "[%s] %s" % (i.id, f["reason"]))
 
 
-def run(ctx):
+def _run(ctx):
     l1 = ctx.inst("C03.L1", "swap: the reserve product does not decrease and the LP supply is untouched (C01.N1-N3, C01.R1)", floor=8)
     l2 = ctx.inst("C03.L2", "provide: minted share m <= d_i*S/r_i for both assets, reserves net of the caller's native deposit (C05.N1, C05.R3, C05.R4)", floor=6)
     l3 = ctx.inst("C03.L3", "withdraw: refund x_i <= r_i*a/S and exactly a is burned (C04.N1, C04.R1, C04.R2)", floor=6)
@@ -30,3 +30,9 @@ def run(ctx):
     ctx.assumptions.append("paper induction (not mechanised): with (r0,r1,S): L2 gives (r0+d0)(r1+d1)/(S+m)^2 >= r0r1/S^2; L3 gives (r0-x0)(r1-x1)/(S-a)^2 >= r0r1/S^2; "
                            "L1 keeps S and does not lower r0r1; donations and holder-side burns only raise the quotient; rejected calls revert atomically (platform)")
     ctx.assumptions.append("this check decides the per-operation lemmas only; the interleaving quantifier is discharged by the induction above, not by exploration")
+
+
+def run(ctx):
+    from .. import numeric
+    _run(ctx)
+    numeric.arith_base(ctx, "C03.B1")
